@@ -17,10 +17,18 @@
    Background work (memdb flush, table compaction) is the flag [dbg] "work may be pending or scheduled" and the
    pseudo call [CDrain] "background work runs until nothing is needed" (leveldb.VerifWaitIdle in the harness).
 
-   Known finding (known_findings_C18.txt, id switched-ro-keeps-compacting): SetReadOnly on a DB that was opened
-   read-write does not park the table-compaction goroutine, and reads of such a DB still schedule seek
-   compactions; the model follows the code: in mode [RSwitched] reads set [dbg] when seek compaction is enabled
-   ([dseek], i.e. Options.DisableSeeksCompaction = false). *)
+   Code variants.  The machine takes one boolean, [parks]:
+     parks = true  : the code after the repair "a DB in the persistent-error state starts no flush and no table
+                     compaction" (db_compaction.go: mCompaction / tCompaction test compPerErrC before they start
+                     work, and return): on a DB switched to read-only ([RSwitched]) the job that was running at
+                     the switch may still finish ([dbg] stays as it was, the next [CDrain] runs it), nothing is
+                     scheduled afterwards -- a read may still send its seek-compaction request, the goroutine
+                     that receives it starts nothing;
+     parks = false : the code before (former known finding switched-ro-keeps-compacting): SetReadOnly did not
+                     park the table-compaction goroutine and reads of a switched DB kept scheduling seek
+                     compactions ([dbg] set by reads whenever [dseek], i.e. Options.DisableSeeksCompaction =
+                     false).  Kept for the refutation witness only.
+   Every theorem of Props/C18.v is about parks = true. *)
 From Coq Require Import List NArith Bool String.
 Import ListNotations.
 Open Scope N_scope.
@@ -179,7 +187,9 @@ Inductive mode :=
 
 Definition is_closed (m : mode) : bool := match m with Closed => true | _ => false end.
 Definition is_ro (m : mode) : bool := match m with ROpened | RSwitched => true | _ => false end.
-(* background goroutines exist (mCompaction / tCompaction were started and have not been stopped by Close) *)
+(* the DB was opened read-write: its goroutines (compaction, and the session's reference loop that removes the
+   tables of released versions) were started; after SetReadOnly the compaction goroutines finish the job in
+   flight and, in the repaired code, start nothing else ([sched_bg]) *)
 Definition has_bg (m : mode) : bool := match m with RW | RSwitched => true | _ => false end.
 
 Inductive ikind :=
@@ -233,10 +243,15 @@ Definition bump (db : dbrec) := mkDb (dmode db) (dseek db) (dbg db) (S (dver db)
 
 Definition add_iter (db : dbrec) (i : iter) := set_iters db (diters db ++ [i]).
 
-(* a read of the tables may schedule a seek compaction when compaction goroutines exist (db.get: cSched ->
-   compTrigger; dbIter.sampleSeek) — also on a DB switched to read-only (known finding) *)
-Definition read_sched (db : dbrec) : dbrec :=
-  if has_bg (dmode db) && dseek db then set_bg db true else db.
+(* compaction goroutines exist AND still start work: read-write mode; the switched mode only in the code before
+   the repair (parks = false) *)
+Definition sched_bg (parks : bool) (m : mode) : bool :=
+  match m with RW => true | RSwitched => negb parks | _ => false end.
+
+(* a read of the tables may schedule a seek compaction (db.get: cSched -> compTrigger; dbIter.sampleSeek) when
+   there is a compaction goroutine that will act on the request *)
+Definition read_sched (parks : bool) (db : dbrec) : dbrec :=
+  if sched_bg parks (dmode db) && dseek db then set_bg db true else db.
 
 (* ---------------------------------------------------------------- abstract mutations of the write paths *)
 
@@ -266,7 +281,7 @@ Definition close_muts (db : dbrec) : list mut :=
   (if existsb (fun t => negb (tdone t) && ttab t) (dtxns db) then [MRemove table_file] else []) ++
   (if dbg db then [MRemove table_file] else []).
 
-Definition db_step (db : dbrec) (m : api_call) : res :=
+Definition db_step (parks : bool) (db : dbrec) (m : api_call) : res :=
   match dmode db with
   | Closed =>
       match m with
@@ -276,7 +291,7 @@ Definition db_step (db : dbrec) (m : api_call) : res :=
   | RW =>
       if has_open_txn db && takes_write_lock m then (db, [], Blocks) else
       match m with
-      | DbGet | DbHas => (read_sched db, [], Ok)
+      | DbGet | DbHas => (read_sched parks db, [], Ok)
       | DbNewIterator => (add_iter db (mkIter (IReal None) false Ok false (dver db)), [], Ok)
       | DbGetSnapshot => (set_snaps db (dsnaps db ++ [false]), [], Ok)
       | DbGetProperty | DbStats | DbSizeOf | DbWrite true => (db, [], Ok)
@@ -289,7 +304,7 @@ Definition db_step (db : dbrec) (m : api_call) : res :=
       end
   | _ (* ROpened, RSwitched: the write lock is held for ever, compPerErrC delivers ErrReadOnly *) =>
       match m with
-      | DbGet | DbHas => (read_sched db, [], Ok)
+      | DbGet | DbHas => (read_sched parks db, [], Ok)
       | DbNewIterator => (add_iter db (mkIter (IReal None) false Ok false (dver db)), [], Ok)
       | DbGetSnapshot => (set_snaps db (dsnaps db ++ [false]), [], Ok)
       | DbGetProperty | DbStats | DbSizeOf | DbWrite true => (db, [], Ok)
@@ -300,13 +315,13 @@ Definition db_step (db : dbrec) (m : api_call) : res :=
   end.
 
 (* db_snapshot.go: released is checked first, then db.ok() *)
-Definition snap_step (db : dbrec) (h : nat) (released : bool) (m : api_call) : res :=
+Definition snap_step (parks : bool) (db : dbrec) (h : nat) (released : bool) (m : api_call) : res :=
   match m with
   | SnString => (db, [], Ok)
   | SnGet | SnHas =>
       if released then (db, [], ErrSnapshotReleased)
       else if is_closed (dmode db) then (db, [], ErrClosed)
-      else (read_sched db, [], Ok)
+      else (read_sched parks db, [], Ok)
   | SnNewIterator =>
       if released then (add_iter db (mkIter IEmpty false ErrSnapshotReleased false (dver db)), [], ErrSnapshotReleased)
       else if is_closed (dmode db) then (add_iter db (mkIter IEmpty false ErrClosed false (dver db)), [], ErrClosed)
@@ -317,10 +332,10 @@ Definition snap_step (db : dbrec) (h : nat) (released : bool) (m : api_call) : r
 
 (* db_transaction.go: every method checks tr.closed; Commit checks db.ok() first; Write returns nil for an
    empty batch before anything else *)
-Definition txn_step (db : dbrec) (h : nat) (t : txn) (m : api_call) : res :=
+Definition txn_step (parks : bool) (db : dbrec) (h : nat) (t : txn) (m : api_call) : res :=
   match m with
   | TrWrite true => (db, [], Ok)
-  | TrGet | TrHas => if tdone t then (db, [], ErrTransactionDone) else (read_sched db, [], Ok)
+  | TrGet | TrHas => if tdone t then (db, [], ErrTransactionDone) else (read_sched parks db, [], Ok)
   | TrNewIterator =>
       if tdone t then (add_iter db (mkIter IEmpty false ErrTransactionDone false (dver db)), [], ErrTransactionDone)
       else (add_iter db (mkIter (IReal (Some h)) false Ok false (dver db)), [], Ok)
@@ -363,7 +378,7 @@ Definition release_muts (db : dbrec) (i : iter) : list mut :=
 
 (* db_iter.go dbIter / iterator.emptyIterator + util.BasicReleaser.  The outcome of an iterator call is the
    class of it.Error() right after the call (Panics for the documented SetReleaser panics). *)
-Definition iter_step (db : dbrec) (h : nat) (i : iter) (m : api_call) : res :=
+Definition iter_step (parks : bool) (db : dbrec) (h : nat) (i : iter) (m : api_call) : res :=
   let put i' := set_iters db (upd (diters db) h i') in
   match m with
   | ItSetReleaser nonnil =>
@@ -379,18 +394,18 @@ Definition iter_step (db : dbrec) (h : nat) (i : iter) (m : api_call) : res :=
       | Ok =>
           if irel i then (put (mkIter (ik i) true ErrIterReleased (ihasr i) (iver i)), [], ErrIterReleased)
           else if iter_unsafe db i then (db, [], Unspecified)
-          else (read_sched db, [], Ok)
+          else (read_sched parks db, [], Ok)
       | e => (db, [], e)
       end
   | _ => (db, [], NoHandle)
   end.
 
-Definition local_step (db : dbrec) (h : nat) (m : api_call) : res :=
+Definition local_step (parks : bool) (db : dbrec) (h : nat) (m : api_call) : res :=
   match recv m with
-  | RDb => db_step db m
-  | RSnap => match nth_error (dsnaps db) h with Some r => snap_step db h r m | None => (db, [], NoHandle) end
-  | RTxn => match nth_error (dtxns db) h with Some t => txn_step db h t m | None => (db, [], NoHandle) end
-  | RIter => match nth_error (diters db) h with Some i => iter_step db h i m | None => (db, [], NoHandle) end
+  | RDb => db_step parks db m
+  | RSnap => match nth_error (dsnaps db) h with Some r => snap_step parks db h r m | None => (db, [], NoHandle) end
+  | RTxn => match nth_error (dtxns db) h with Some t => txn_step parks db h t m | None => (db, [], NoHandle) end
+  | RIter => match nth_error (diters db) h with Some i => iter_step parks db h i m | None => (db, [], NoHandle) end
   end.
 
 (* ---------------------------------------------------------------- calls and the global step *)
@@ -416,7 +431,7 @@ Definition open_step (s : state) (ro seek : bool) : state * outcome :=
 Definition drain_db (db : dbrec) : dbrec * list mut :=
   if dbg db then (bump (set_bg db false), bg_muts) else (db, []).
 
-Definition step (s : state) (c : call) : state * outcome :=
+Definition step (parks : bool) (s : state) (c : call) : state * outcome :=
   match c with
   | COpen ro seek => open_step s ro seek
   | CDrain d =>
@@ -428,7 +443,7 @@ Definition step (s : state) (c : call) : state * outcome :=
       match nth_error (dbs s) d with
       | None => (s, NoHandle)
       | Some db =>
-          let '(db', ms, o) := local_step db h m in
+          let '(db', ms, o) := local_step parks db h m in
           let st := apply_muts (stor s) ms in
           (* session.release(): Close of an open DB unlocks the storage *)
           let st' := if negb (is_closed (dmode db)) && is_closed (dmode db') then set_locked st false else st in
@@ -436,16 +451,16 @@ Definition step (s : state) (c : call) : state * outcome :=
       end
   end.
 
-Fixpoint run (s : state) (l : list call) : state :=
+Fixpoint run (parks : bool) (s : state) (l : list call) : state :=
   match l with
   | [] => s
-  | c :: l' => run (fst (step s c)) l'
+  | c :: l' => run parks (fst (step parks s c)) l'
   end.
 
-Fixpoint run_out (s : state) (l : list call) : list outcome :=
+Fixpoint run_out (parks : bool) (s : state) (l : list call) : list outcome :=
   match l with
   | [] => []
-  | c :: l' => snd (step s c) :: run_out (fst (step s c)) l'
+  | c :: l' => snd (step parks s c) :: run_out parks (fst (step parks s c)) l'
   end.
 
 (* ---------------------------------------------------------------- the expected class on a closed DB *)
